@@ -140,6 +140,11 @@ RESUME_CORPUS = [
     {"what": "field access on a non-struct", "session": ["1.field"]},
     {"what": "string concatenation with an Int", "session": ["\"a\" ^ 1"]},
     {"what": "float operator on a string", "session": ["1.5 +. \"a\""]},
+    {"what": "`+=` on a String variable at the toplevel", "session": ["let s = \"a\"", "s += 1"]},
+    {"what": "`+=` with a String right-hand side", "session": ["let n = 1", "n += \"x\""]},
+    {"what": "`+=` on a String parameter inside a loop in a callee", "session": ["fun tally(label, xs) { for x in xs { label += x } label }", "tally(\"total\", [1, 2, 3])"], "resumes": 3},
+    {"what": "`-=` on an unbound variable", "session": ["fun dec() { nosuch -= 1 }", "dec()"]},
+    {"what": "assignment to an unbound variable", "session": ["fun asg() { nosuch = 1 }", "asg()"]},
 ]
 BOUNDED = [
     {"name": "resume_corpus", "kind": "resume-corpus", "props": ["C07"], "input": RESUME_CORPUS, "n_inputs": len(RESUME_CORPUS),
@@ -238,13 +243,13 @@ def build(tier):
             ("same", "top(*env).exprs_to_eval == top(*old(env)).exprs_to_eval && top(*env).bindings == top(*old(env)).bindings")],
             decreases="evalled_values@.len() - __i1")},
         props={"C07"}))
-    u.add_fn(EV, "check_arity", rules=["R6", common.r9], contract=Contract(
+    u.add_fn(EV, "check_arity", rules=["R4", "R6", common.r9], contract=Contract(
         requires=[("same_len", "arg_positions@.len() == arg_values@.len()")],
         ensures=[("ok_means_arity", "r is Ok <==> arg_values@.len() == expected", both),
                  ("restores_call", "r is Err ==> r->Err_0.0.0@ =~= restore_of_call(*receiver_value, arg_values@)", {"C07"})],
         hints=[dict(anchor="let mut saved_values", where="after_stmt", text="let ghost init = saved_values@;")],
-        loops={1: dict(invariant=[("built", "__i1 <= arg_values@.len(), saved_values@ =~= init + rev_from(arg_values@, __i1 as int)")],
-                       decreases="__i1")},
+        loops={1: dict(invariant=[("built", "{I} <= arg_values@.len(), saved_values@ =~= init + rev_from(arg_values@, {I} as int)")],
+                       decreases="{I}")},
         props=both))
     u.add_type("src/parser/ast.rs", "SymbolWithHint")
     u.raw(GLUE3, kind="prelude")
